@@ -132,7 +132,22 @@ fn mutate_csv(rng: &mut Rng, doc: &str) -> (String, String) {
     let mut lines: Vec<String> = doc.lines().map(|s| s.to_string()).collect();
     if lines.len() < 2 { return ("unchanged".into(), doc.to_string()); }
     let i = 1 + rng.below(lines.len() - 1);
-    match rng.below(8) {
+    match rng.below(11) {
+        8 | 9 | 10 => {
+            // one of the ';'-separated lists of a complex selector loses or blanks an element: the parallel lists
+            // (selector types, resources, annotations, begin and end offsets) no longer line up
+            let rows: Vec<usize> = (1..lines.len()).filter(|k| lines[*k].contains(';')).collect();
+            if rows.is_empty() { return ("unchanged".into(), doc.to_string()); }
+            let i = *rng.pick(&rows);
+            let mut cells: Vec<String> = lines[i].split(',').map(|s| s.to_string()).collect();
+            let listcells: Vec<usize> = (0..cells.len()).filter(|c| cells[*c].contains(';')).collect();
+            let c = *rng.pick(&listcells);
+            let mut items: Vec<String> = cells[c].split(';').map(|s| s.to_string()).collect();
+            let what = match rng.below(3) { 0 => { items.pop(); "last-dropped" } 1 => { items.remove(0); "first-dropped" } _ => { let k = rng.below(items.len()); items[k] = String::new(); "blanked" } };
+            cells[c] = items.join(";");
+            lines[i] = cells.join(",");
+            (format!("list-element-{}/col{}", what, c), lines.join("\n"))
+        }
         0 => { lines.remove(i); ("row-deleted".into(), lines.join("\n")) }
         1 => { let l = lines[i].clone(); lines.insert(i, l); ("row-duplicated".into(), lines.join("\n")) }
         2 => { lines.remove(0); ("header-deleted".into(), lines.join("\n")) }
@@ -372,7 +387,7 @@ pub fn run(opts: &Opts) -> Report {
                 let (class, m) = mutate_csv(&mut rng, &String::from_utf8_lossy(&files[k].1));
                 let mut fs = files.clone();
                 fs[k].1 = m.into_bytes();
-                let which = if fs[k].0 == "x.store.stam.csv" { "manifest" } else if fs[k].0.contains("annotations") { "annotations" } else if fs[k].0.contains("dataset") || fs[k].0.contains("annotationset") { "dataset" } else { "resource" };
+                let which = if fs[k].0 == "x.store.stam.csv" { "manifest" } else if fs[k].0.contains(".annotations.") { "annotations" } else if fs[k].0.contains("dataset") || fs[k].0.contains("annotationset") { "dataset" } else { "resource" };
                 let main = fs.iter().find(|f| f.0 == "x.store.stam.csv").map(|f| f.1.clone()).unwrap_or_default();
                 cases.push(Case { format: "csv", class: format!("csv/{}/{}", which, class), main, extra: fs.into_iter().filter(|f| f.0 != "x.store.stam.csv").collect() });
             }
@@ -421,6 +436,66 @@ pub fn run(opts: &Opts) -> Report {
     for (name, doc) in crafted {
         cases.push(Case { format: "json", class: format!("json/crafted/{}", name), main: doc.into_bytes(), extra: vec![] });
     }
+    // documents that include other documents (stores in stores, data sets and resources in stand-off files): cycles,
+    // self-inclusion, missing files; the main document is loaded through a path with a directory part, the includes are
+    // relative names
+    {
+        let st = |id: &str, inc: &str, anns: &str| format!("{{\"@type\": \"AnnotationStore\", \"@id\": \"{}\", \"@include\": {}, \"resources\": [{{\"@type\": \"TextResource\", \"@id\": \"r-{}\", \"text\": \"hello world\"}}], \"annotationsets\": [], \"annotations\": [{}]}}", id, inc, id, anns);
+        let a = |id: &str, res: &str| format!("{{\"@type\": \"Annotation\", \"@id\": \"{}\", \"target\": {{\"@type\": \"TextSelector\", \"resource\": \"{}\", \"offset\": {{\"@type\": \"Offset\", \"begin\": {{\"@type\": \"BeginAlignedCursor\", \"value\": 0}}, \"end\": {{\"@type\": \"BeginAlignedCursor\", \"value\": 5}}}}}}, \"data\": []}}", id, res);
+        let multi: Vec<(&str, String, Vec<(&str, String)>)> = vec![
+            ("include/store-cycle-b-c-b", st("a", "\"b.store.stam.json\"", &a("a1", "r-a")), vec![("b.store.stam.json", st("b", "\"c.store.stam.json\"", &a("b1", "r-b"))), ("c.store.stam.json", st("c", "\"b.store.stam.json\"", &a("c1", "r-c")))]),
+            ("include/store-includes-itself", st("a", "\"x.store.stam.json\"", &a("a1", "r-a")), vec![]),
+            ("include/store-mutual", st("a", "\"b.store.stam.json\"", &a("a1", "r-a")), vec![("b.store.stam.json", st("b", "\"x.store.stam.json\"", &a("b1", "r-b")))]),
+            ("include/store-twice", st("a", "[\"b.store.stam.json\", \"b.store.stam.json\"]", &a("a1", "r-a")), vec![("b.store.stam.json", st("b", "[]", &a("b1", "r-b")))]),
+            ("include/store-missing", st("a", "\"nope.store.stam.json\"", &a("a1", "r-a")), vec![]),
+            ("include/store-chain-of-three", st("a", "\"b.store.stam.json\"", &a("a1", "r-a")), vec![("b.store.stam.json", st("b", "\"c.store.stam.json\"", &a("b1", "r-b"))), ("c.store.stam.json", st("c", "[]", &a("c1", "r-c")))]),
+            ("include/dataset-includes-itself", format!("{{\"@type\": \"AnnotationStore\", \"resources\": [], \"annotationsets\": [{{\"@type\": \"AnnotationDataSet\", \"@id\": \"s\", \"@include\": \"s.dataset.stam.json\"}}], \"annotations\": []}}"), vec![("s.dataset.stam.json", "{\"@type\": \"AnnotationDataSet\", \"@id\": \"s\", \"@include\": \"s.dataset.stam.json\"}".to_string())]),
+            ("include/resource-missing", format!("{{\"@type\": \"AnnotationStore\", \"resources\": [{{\"@type\": \"TextResource\", \"@id\": \"r\", \"@include\": \"nope.txt\"}}], \"annotationsets\": [], \"annotations\": []}}"), vec![]),
+            ("include/resource-is-directory", format!("{{\"@type\": \"AnnotationStore\", \"resources\": [{{\"@type\": \"TextResource\", \"@id\": \"r\", \"@include\": \".\"}}], \"annotationsets\": [], \"annotations\": []}}"), vec![]),
+        ];
+        for (name, doc, extra) in multi {
+            cases.push(Case { format: "json", class: format!("json/crafted/{}", name), main: doc.into_bytes(), extra: extra.into_iter().map(|(n, b)| (n.to_string(), b.into_bytes())).collect() });
+        }
+    }
+    // ---- STAM CSV of a small store with complex selectors over annotation selectors with offsets: every ';'-separated
+    //      list of every such row loses its last / first element or has one element blanked (exhaustively)
+    {
+        let mut ex = crate::fam::store::Exec::new();
+        for l in ["st addres r0 9", "st annot a0 T:r0:b0:b5", "st annot a1 T:r0:b2:b8", "st annot a2 C[AO:a0:b0:b2;AO:a1:b1:b3] s0/k0/s:v0/d0", "st annot a3 M[T:r0:b0:b1;AO:a1:b0:e-1;R:r0] s0/k0/s:v0/d0 s0/k1/i:1/d1", "st annot a4 X[T:r0:b1:b2;T:r0:b3:b4]"] { ex.exec(l); }
+        let sub = dir.join("csvcrafted");
+        std::fs::create_dir_all(&sub).ok();
+        let p = sub.join("x.store.stam.csv");
+        let wrote = ex.store.to_file(p.to_str().unwrap());
+        if std::env::var("VERIF_DEBUG").is_ok() { eprintln!("csv crafted: write {:?} into {}", wrote.as_ref().map_err(|e| format!("{}", e)), sub.display()); }
+        if wrote.is_ok() {
+            let mut files: Vec<(String, Vec<u8>)> = vec![];
+            if let Ok(rd) = std::fs::read_dir(&sub) { for e in rd.flatten() { let n = e.file_name().to_string_lossy().to_string(); if let Ok(b) = std::fs::read(e.path()) { files.push((n, b)); } } }
+            files.sort();
+            if std::env::var("VERIF_DEBUG").is_ok() { eprintln!("csv crafted: files {:?}", files.iter().map(|f| f.0.clone()).collect::<Vec<_>>()); }
+            if let Some(k) = files.iter().position(|f| f.0.contains(".annotations.")) {
+                let doc = String::from_utf8_lossy(&files[k].1).to_string();
+                let lines: Vec<String> = doc.lines().map(|s| s.to_string()).collect();
+                for (ri, row) in lines.iter().enumerate().skip(1) {
+                    let cells: Vec<String> = row.split(',').map(|s| s.to_string()).collect();
+                    for (ci, cell) in cells.iter().enumerate() {
+                        if !cell.contains(';') { continue; }
+                        let items: Vec<String> = cell.split(';').map(|s| s.to_string()).collect();
+                        let mut variants: Vec<(String, Vec<String>)> = vec![("last-dropped".into(), items[..items.len() - 1].to_vec()), ("first-dropped".into(), items[1..].to_vec())];
+                        for b in 0..items.len() { let mut v = items.clone(); v[b] = String::new(); variants.push((format!("blanked{}", b), v)); }
+                        for (what, v) in variants {
+                            let mut c2 = cells.clone(); c2[ci] = v.join(";");
+                            let mut l2 = lines.clone(); l2[ri] = c2.join(",");
+                            let mut fs = files.clone(); fs[k].1 = l2.join("\n").into_bytes();
+                            let main = fs.iter().find(|f| f.0 == "x.store.stam.csv").map(|f| f.1.clone()).unwrap_or_default();
+                            cases.push(Case { format: "csv", class: format!("csv/crafted/list-element-{}/col{}", what, ci), main, extra: fs.into_iter().filter(|f| f.0 != "x.store.stam.csv").collect() });
+                        }
+                    }
+                }
+            }
+        }
+        std::fs::remove_dir_all(&sub).ok();
+    }
+    if std::env::var("VERIF_DEBUG").is_ok() { eprintln!("csv crafted: {} cases in all, {} crafted csv", cases.len(), cases.iter().filter(|c| c.class.starts_with("csv/crafted")).count()); }
     // run in batches
     let bs = 300;
     for (bi, chunk) in cases.chunks(bs).enumerate() {
@@ -529,4 +604,13 @@ pub fn tempid_stream(rep: &mut Report, rng: &mut Rng, n: usize) {
         rep.model_case(vec![line], vec![a], "temp-id-resolve");
     }
 }
+/// diagnostic: write a small store with a composite of annotation selectors with offsets as STAM CSV into `dir`
+pub fn csv_sample(dir: &str) {
+    let mut ex = crate::fam::store::Exec::new();
+    for l in ["st addres r0 9", "st annot a0 T:r0:b0:b5", "st annot a1 T:r0:b2:b8", "st annot a2 C[AO:a0:b0:b2;AO:a1:b1:b3] s0/k0/s:v0/d0"] { println!("{} -> {}", l, ex.exec(l)); }
+    std::fs::create_dir_all(dir).ok();
+    let p = format!("{}/x.store.stam.csv", dir);
+    println!("{:?}", ex.store.to_file(&p).map_err(|e| format!("{}", e)));
+}
+
 pub fn debug_load(path: &str) { println!("{:?}", AnnotationStore::from_file(path, Config::default()).map(|s| s.annotations_len()).map_err(|e| format!("{}", e))); }
